@@ -283,12 +283,18 @@ func pushTo(r *mux.Router, on string, body string, tsOK, splOK bool) (int, []Cal
 	return collect(tsOK, splOK, func() int {
 		req := httptest.NewRequest("POST", "/loki/api/v1/push", bytes.NewReader([]byte(body)))
 		req.Header.Set("Content-Type", "application/json")
-		req.Header.Set("X-CH-DSN", nodeName(on))
+		if on != freeNode {
+			req.Header.Set("X-CH-DSN", nodeName(on))
+		}
 		w := httptest.NewRecorder()
 		r.ServeHTTP(w, req)
 		return w.Code
 	})
 }
+
+// round 8: a push WITHOUT X-CH-DSN: the registry picks the node (at random); the check reads the node off the connection the
+// samples travelled on and requires the series row (and the cache view) to be that node's too
+const freeNode = "-"
 
 // an open request: its body is a pipe the harness writes to piece by piece
 type flight struct {
